@@ -6,7 +6,7 @@ from fractions import Fraction
 
 from ..absint import ClassRef, FuncV, Interp, ObjV, VecV
 from ..forms import Const, DictV, Form, SliceV, TupleV
-from ..rules import S
+from ..rules import S, check_late_binding
 from ..srcmodel import src_of
 
 EXPLANATION = (
@@ -41,6 +41,16 @@ class T:
         return names.get((self.d, self.s), f"(degree {self.d}, shift {self.s})")
 
 
+class ColT:
+    """2-D array whose columns carry different unit types (cluster centres in (t, y) coordinates)"""
+
+    def __init__(self, default, cols):
+        self.default, self.cols = default, dict(cols)
+
+    def __repr__(self):
+        return f"columns {self.cols} else {self.default!r}"
+
+
 ANY = "any"          # polymorphic: nan, empty
 ZERO = "zero"        # the literal 0: any degree, but it does not shift with the waveform
 BAD = "nonaffine"    # not an affine-equivariant quantity (product of levels, ratio of levels ...)
@@ -63,6 +73,9 @@ class Typer:
             self.errors.append((what, why))
 
     def join(self, ts, what):
+        cols = [t for t in ts if isinstance(t, ColT)]
+        if cols:
+            return cols[0]
         real = [t for t in ts if isinstance(t, T)]
         if any(t == ZERO for t in ts):
             sh = [t for t in real if t.s != 0]
@@ -111,58 +124,81 @@ class Typer:
 
     def _form(self, f: Form):
         if f.is_zero():
-            return ANY
-        mts = []
+            return ZERO
+        sa = f.single_atom()
+        if sa is not None:
+            t0 = self.atom(sa)
+            if isinstance(t0, ColT):
+                return t0
+        # each monomial: degree, at most one shifted (level-typed) factor, and the remaining factors ("rest")
+        groups = {}      # rest key -> [degree, shift sum, non-constant rest?]
+        flags = set()
         for m, c in f.terms.items():
             if not m:
-                mts.append((NUM, m, c))
+                groups.setdefault(("#const",), [F0, F0, False])
                 continue
-            d, s = F0, F0
+            d = F0
+            shifted = []
+            rest = []
             bad = unk = False
-            shifted = 0
             n_any = 0
             for a, e in m:
                 t = self.atom(a)
+                if isinstance(t, ColT):
+                    t = t.default
                 if t == BAD:
                     bad = True
                 elif t == UNK:
                     unk = True
                 elif t == ANY or t == ZERO:
                     n_any += 1
-                    continue
                 else:
                     d += t.d * e
                     if t.s != 0:
-                        shifted += 1
-                        if e != 1 or len(m) > 1 and any(not (self.atom(b) == NUM) for b, _ in m if b is not a):
-                            bad = True
-                        s = t.s
+                        shifted.append((a, e, t))
+                    else:
+                        rest.append((a, e, t))
             if bad:
-                mts.append((BAD, m, c))
-            elif unk:
-                mts.append((UNK, m, c))
-            elif n_any:
-                mts.append((ANY, m, c))     # polymorphic factor (nan, zeros, value already reported): no constraint
-            else:
+                flags.add(BAD)
+                continue
+            if unk:
+                flags.add(UNK)
+                continue
+            if n_any:
+                flags.add(ANY)
+                continue
+            if len(shifted) > 1 or (shifted and shifted[0][1] != 1):
+                flags.add(BAD)       # product / power of levels
+                continue
+            nonconst = any(not (t == NUM) for _, _, t in rest)
+            key = tuple(sorted((repr(a), e) for a, e, _ in rest))
+            g = groups.setdefault(key, [d, F0, nonconst])
+            g[0] = d
+            if shifted:
                 cs = c[0] if c[1] == 0 else F1
-                mts.append((T(d, s * cs), m, c))
-        if any(t == BAD for t, _, _ in mts):
+                g[1] += shifted[0][2].s * cs
+        if BAD in flags:
             return BAD
-        real = [(t, m) for t, m, c in mts if isinstance(t, T)]
-        if not real:
-            return UNK if any(t == UNK for t, _, _ in mts) else ANY
-        d0 = real[0][0].d
-        for t, m in real[1:]:
-            if t.d != d0:
-                lit = next((tt for tt, mm in real if not mm), None)
-                if lit is not None:
-                    self.err(f"expression {short(f)}", "a non-zero literal constant is added to a quantity that scales with the waveform: the result depends on the unit of the input")
-                else:
-                    self.err(f"expression {short(f)}", f"sum of terms of degree {d0} and {t.d}")
-                return ANY
-        if any(t == UNK for t, _, _ in mts):
+        degs = set()
+        shift = F0
+        has_literal = ("#const",) in groups
+        for key, (d, s, nonconst) in groups.items():
+            degs.add(d)
+            if nonconst and s != 0:
+                return BAD          # a level (not a difference of levels) scaled by a non-constant factor
+            if not nonconst:
+                shift += s
+        if len(degs) > 1:
+            if has_literal:
+                self.err(f"expression {short(f)}", "a non-zero literal constant is added to a quantity that scales with the waveform: the result depends on the unit of the input")
+            else:
+                self.err(f"expression {short(f)}", f"sum of terms of degrees {sorted(degs)}")
+            return ANY
+        if UNK in flags:
             return UNK
-        return T(d0, sum(t.s for t, _ in real))
+        if not degs:
+            return ANY
+        return T(next(iter(degs)), shift)
 
     def atom(self, a):
         k = a[0]
@@ -184,7 +220,13 @@ class Typer:
             return self.join([self.ty(x) for x in a[2]], f"value of {a[1].split('@')[0]} (differs by path)")
         if k == "idx":
             self.ty(a[2])
-            return self.ty(a[1])
+            bt = self.ty(a[1])
+            if isinstance(bt, ColT):
+                ix = a[2]
+                if isinstance(ix, TupleV) and len(ix.items) == 2 and isinstance(ix.items[1], Form) and ix.items[1].rational() is not None:
+                    return bt.cols.get(int(ix.items[1].rational()), bt.default)
+                return bt
+            return bt
         if k == "attr":
             if a[2] in ("shape", "size", "ndim", "dtype"):
                 return NUM
@@ -221,6 +263,8 @@ class Typer:
         name, args, kw = a[1], a[2], dict(a[3])
         if name in self.CMP:
             l, r = self.ty(args[0]), self.ty(args[1])
+            if l == BAD or r == BAD:
+                self.err(f"comparison {short(Form.atom(a))}", "an operand is not an affine-equivariant quantity (product/ratio involving an absolute level): the outcome depends on the offset or unit of the input")
             if (l == ZERO and isinstance(r, T) and r.s != 0) or (r == ZERO and isinstance(l, T) and l.s != 0):
                 self.err(f"comparison {short(Form.atom(a))}", "a level (which shifts with the waveform) is compared with the literal 0: the outcome depends on the offset of the input")
             if isinstance(l, T) and isinstance(r, T) and l != r:
@@ -237,6 +281,7 @@ class Typer:
         if name == "abs":
             t = self.ty(args[0])
             if isinstance(t, T) and t.s != 0:
+                self.err(f"distance {short(Form.atom(a))}", "|a - b| is taken between quantities whose offsets do not cancel (a level against a non-level): the nearest-value search depends on the offset of the waveform")
                 return BAD
             return t
         if name in ("std",):
@@ -253,10 +298,22 @@ class Typer:
             b = self.ty(args[0])
             self.ty(args[1])
             v = self.ty(args[2])
+            ix = args[1]
+            if isinstance(ix, TupleV) and len(ix.items) == 2 and isinstance(ix.items[0], SliceV) and isinstance(ix.items[1], Form) and ix.items[1].rational() is not None:
+                base_t = b if not isinstance(b, ColT) else b.default
+                cols = dict(b.cols) if isinstance(b, ColT) else {}
+                cols[int(ix.items[1].rational())] = v
+                return ColT(base_t, cols)      # a whole column re-expressed in other units
+            if isinstance(b, ColT):
+                return b
             return self.join([b, v], f"store into {short(args[0])}")
         if name in ("vstack", "hstack", "stack", "concatenate", "column_stack"):
             items = args[0].items if isinstance(args[0], (TupleV, VecV)) else list(args)
             ts = [self.ty(i) for i in items]
+            if any(t == BAD for t in ts):
+                self.err(f"np.{name}({short(args[0])})", "a stacked row is not an affine-equivariant quantity (e.g. a level difference divided by an absolute level instead of by a level "
+                                                          "difference): distances computed on the result change when the waveform is offset")
+                return ANY
             real = [t for t in ts if isinstance(t, T)]
             if len(set(real)) > 1:
                 self.err(f"np.{name}({short(args[0])})", f"stacks a {real[0]!r} row with a {next(t for t in real if t != real[0])!r} row: any distance computed on the result (clustering) "
@@ -321,6 +378,8 @@ def run(ctx):
             for r in fits:
                 tp = Typer(samples)
                 t = tp.ty(r.args[0]) if r.args else UNK
+                if t == BAD and not tp.errors:
+                    tp.err("clustered data", "the data are not affine-equivariant quantities (product/ratio involving an absolute level)")
                 for what, why in tp.errors:
                     ctx.violation("C17.1", fi, r.node, f"GET_EYE: data given to {src_of(r.node)[:60]}", f"{what[:200]}: {why}")
                 if not tp.errors:
@@ -368,4 +427,5 @@ def run(ctx):
             ctx.check("C17.1", t == LEVEL_T or t == ANY, fs_, rets[0].node, "shortest_int result", "two data values (level type)", f"result type {t!r} is not that of the data")
     else:
         ctx.unknown("C17.1", fs_, fs_.node, "shortest_int", "no return")
+    check_late_binding(ctx, "C17.2", ["devices.GET_EYE"])
     ctx.require_min("C17.1", 40)
